@@ -67,7 +67,10 @@ class C17(Prop):
             "tables, far-apart fake addresses, offsets above 32767), utimes, and system histories (generated program "
             "families with string switches, inheritance chains, includes, classes, function literals, save_types; steps "
             "compile / edit source / edit include / touch inherited / touch simul_efun + restart / nothing, distinct mtimes, "
-            "reload after every step with permuted string addresses); non-trivial = trace with >= 2 lines; distinct = "
+            "touch simul_efun without restart / damage (truncation, bit flip) / foreign (other magic, driver_id, config_id) / "
+            "binary moved to another name / failing compile first; pragma on top, between functions, last line, in an include, "
+            "toggled; chains with unsaved parents; every reload either in the same process or each in a fresh process; "
+            "reload after every step with permuted string addresses; every decision branch of the model is taken (histogram.decision_branches); non-trivial = trace with >= 2 lines; distinct = "
             "distinct canonical implementation trace")
     not_covered = ["byte-level layout of the .b file; damaged .b files are only explored (random truncations / bit flips under ASan, counts in the evidence): flipped bits inside the saved program_t can crash the driver (open exploration finding C17-damaged-binary-crash)",
                    "quickSort itself (modelled by its contract; the comparators are modelled exactly)",
